@@ -590,6 +590,77 @@ func main() {
 		natFact("hashResolvUpdate", hashOf(bodyText(fu)), fu != nil, "hash of the normalised body of resolvconf.update")
 	}
 
+	// ---- socket disciplines (C19) ----
+	{
+		disc := func(rel, fn string, openers ...string) string {
+			fd := funcDecl(rel, fn)
+			if fd == nil || fd.Body == nil {
+				return "unknown"
+			}
+			// the variable that receives the socket
+			v := ""
+			ast.Inspect(fd, func(x ast.Node) bool {
+				if as, ok := x.(*ast.AssignStmt); ok && len(as.Lhs) == 2 && len(as.Rhs) == 1 {
+					if c, ok := as.Rhs[0].(*ast.CallExpr); ok {
+						for _, o := range openers {
+							if calleeName(c) == o && v == "" {
+								v = src(as.Lhs[0])
+							}
+						}
+					}
+				}
+				return true
+			})
+			if v == "" {
+				return "unknown"
+			}
+			t := bodyText(fd)
+			hasDefer := strings.Contains(t, "defer "+v+".Close()")
+			hasCloser := strings.Contains(t, "go func() { <-ctx.Done() "+v+".Close() }()") && strings.Contains(t, "ctx, cancel := context.WithCancel(") && strings.Contains(t, "defer cancel()")
+			// unconditional Close as a top-level statement after the error check, with no return in between
+			closeAfter := false
+			seenOpen := false
+			for _, st := range fd.Body.List {
+				txt := strings.Join(strings.Fields(src(st)), " ")
+				if strings.Contains(txt, v+", err :=") {
+					seenOpen = true
+					continue
+				}
+				if !seenOpen {
+					continue
+				}
+				if txt == v+".Close()" {
+					closeAfter = true
+					break
+				}
+				if strings.HasPrefix(txt, "return") {
+					break
+				}
+			}
+			switch {
+			case hasCloser && !hasDefer:
+				return "closerOnCancel"
+			case hasDefer && !hasCloser:
+				return "deferClose"
+			case closeAfter:
+				return "closeAfterUse"
+			}
+			return "unknown"
+		}
+		strFact("discCatchARPReply", disc("lib/arpping/arpping.go", "catchARPReply", "rsocks.GetARPRecvSock"), "socket discipline of arpping.catchARPReply")
+		strFact("discSendARPPing", disc("lib/arpping/arpping.go", "sendARPPing", "rsocks.GetARPSendSock"), "socket discipline of arpping.sendARPPing")
+		strFact("discServerRun", disc("lib/server/run.go", "Run", "rsocks.GetIPRecvSock"), "socket discipline of server.Run")
+		strFact("discSendUnicast", disc("lib/server/utils.go", "sendUnicast", "rsocks.GetUnicastSendSock"), "socket discipline of server.sendUnicast")
+		strFact("discSendMessage", disc("lib/client/dclient/netio.go", "sendMessage", "sendSocket"), "socket discipline of dclient.sendMessage")
+		strFact("discCatchReply", disc("lib/client/dclient/netio.go", "catchReply", "rsocks.GetIPRecvSock"), "socket discipline of dclient.catchReply")
+		// Ping cancels its context on return, which ends sendARPPing; advanceState likewise ends sendMessage
+		tp := bodyText(funcDecl("lib/arpping/arpping.go", "Ping"))
+		boolFact("pingCancelsOnReturn", strings.Contains(tp, "actx, acancel := context.WithTimeout(ctx,") && strings.Contains(tp, "defer acancel()") && strings.Contains(tp, "go sendARPPing(actx,"),
+			"Ping derives a timeout context, defers its cancel and hands it to sendARPPing")
+		ta := bodyText(funcDecl("lib/client/dclient/dclient.go", "advanceState"))
+		boolFact("advanceStateCancelsOnReturn", strings.Contains(ta, "ctx, cancel := context.WithDeadline(dx.ctx, deadline)") && strings.Contains(ta, "defer cancel()") && strings.Contains(ta, "go sendMessage(ctx,"),
+			"advanceState derives a deadline context, defers its cancel and hands it to sendMessage")
+	}
 	// ---- write ----
 	var sb strings.Builder
 	sb.WriteString("/- GENERATED by /verif/factgen from the current /repo working tree. Do not edit. -/\nnamespace PsaDhcp.Facts\n\n")
